@@ -17,7 +17,7 @@ ASSUMPTIONS = ['ids and class names without blanks; no free-standing text nodes;
                'a leaf without text ends with the caret position: trailing blanks of a header line are ignored',
                'attribute values are printed between double quotes (attribute options are C03)']
 FLOORS = {'quick': {'case': 22000, 'tower': 600}, 'thorough': {'case': 280000, 'tower': 9000}}
-REQUIRED_MONITORS = ['oracle:lines', 'oracle:tree-from-indent', 'oracle:tree-equals-html']
+REQUIRED_MONITORS = ['oracle:lines', 'oracle:tree-from-indent', 'oracle:tree-equals-html', 'oracle:one-tree-rendered-twice']
 N = {'quick': 2500, 'thorough': 19000}
 SYNTAXES = ['haml', 'pug', 'slim']
 NAMES = ['div', 'p', 'span', 'ul', 'li', 'section', 'x-y', 'table', 'tr', 'a2', 'h1', 'em', 'tbody', 'ol', 'article', 'ns:t', 'b']
@@ -275,6 +275,28 @@ class Mon:
         if th != ti:
             ctx.violation('html-tree-mismatch', case, {'from_indentation': ti, 'from_html': th})
             return
+        if ctx.counts['case'] % 3 == 0:
+            # the same statement observed on ONE parsed tree rendered through the public two-step route: indentation syntax, HTML, and the
+            # indentation syntax again - a formatter that rewrites the tree it prints shows only here
+            import emmet
+            from emmet.config import Config
+            ctx.mon('oracle:one-tree-rendered-twice')
+
+            def two_step():
+                cfg = Config({'syntax': syntax, 'options': {'output.indent': indent}})
+                tree = emmet.markup_abbreviation(abbr, cfg)
+                o1 = emmet.stringify_markup(tree, cfg)
+                oh = emmet.stringify_markup(tree, Config({'syntax': 'html', 'options': {'output.format': False, 'output.selfClosingStyle': 'xml'}}))
+                o2 = emmet.stringify_markup(tree, cfg)
+                return o1, oh, o2
+            r2 = core.call(two_step)
+            if r2[0] == 'exc':
+                ctx.violation('exception', dict(case, which='two-step rendering'), {'exc': list(core.exc_site(r2[1]))})
+                return
+            o1, oh, o2 = r2[1]
+            if o1 != out or o2 != out or oh != rh[1]:
+                ctx.violation('tree-changed-by-rendering', case, {'first': o1[:200], 'html_of_same_tree': oh[:200], 'html_of_abbreviation': rh[1][:200], 'again': o2[:200]})
+                return
         if len(exp) >= 2:
             ctx.seen((abbr, syntax, indent))
         ctx.state('shape', 'maxdepth=%d multiline=%s' % (max(e['depth'] for e in exp), any(e['text'] and '\n' in e['text'] for e in exp)))
